@@ -54,3 +54,37 @@ Definition rejection_justified (limit : Z) (dirs : list (option Z)) (ms : list m
    nothing is proved about connect-go. *)
 Definition sharp_at (limit : Z) (verdict : Z -> bool) : Prop :=
   forall size, verdict size = true <-> size <= limit.
+
+(* The limit is a limit on each MESSAGE: a verdict on streams is sharp per message iff a stream
+   is accepted exactly when every one of its messages is within the limit - whatever the number
+   of messages and whatever their sizes add up to (the length of the body that carries them). *)
+Definition stream_sharp_at (limit : Z) (verdict : list Z -> bool) : Prop :=
+  forall sizes, verdict sizes = true <-> (forall s, In s sizes -> s <= limit).
+
+(* where a rejected stream fails: at the first message above the limit *)
+Definition fails_at (limit : Z) (sizes : list Z) (i : nat) : Prop :=
+  (exists s, nth_error sizes i = Some s /\ limit < s) /\
+  (forall j s, (j < i)%nat -> nth_error sizes j = Some s -> s <= limit).
+
+(* "A request marked for expansion is padded ... or the suite is rejected", at the level of a
+   suite file: a load that succeeds has expanded EVERY test case as directed (a case without
+   directives is unchanged: `expanded limit [] ms ms`) ... *)
+Definition suite_loaded (limit : Z) (s : suite) (out : list (list msg)) : Prop :=
+  Forall2 (fun tc ms' => expanded limit (t_dirs tc) (t_msgs tc) ms') (s_cases s) out.
+
+(* ... and a load that fails names a test case that carries directives, and either the suite
+   allows a codec other than proto (sizes are computed for the proto codec) or the rejection of
+   that case is justified as above. *)
+Definition load_rejection_justified (limit : Z) (s : suite) (i : nat) (e : load_err) : Prop :=
+  exists tc, nth_error (s_cases s) i = Some tc /\ t_dirs tc <> [] /\
+    match e with
+    | LCodec => s_codecs s <> [codec_proto]
+    | LExpand e' => rejection_justified limit (t_dirs tc) (t_msgs tc) e'
+    end.
+
+Definition wf_suite (s : suite) : Prop := Forall (fun tc => Forall wf_msg (t_msgs tc)) (s_cases s).
+
+(* two suites that differ only in what the loader has no business looking at *)
+Definition same_marking (s s' : suite) : Prop :=
+  s_codecs s = s_codecs s' /\
+  map (fun tc => (t_dirs tc, t_msgs tc)) (s_cases s) = map (fun tc => (t_dirs tc, t_msgs tc)) (s_cases s').
